@@ -9,6 +9,6 @@ cp /repo/go.sum harness/go.sum
 rm -f runs/wzh-setup
 tmp=$(mktemp -d)
 cp spec/*.tla "$tmp"/
-for f in "$tmp"/*_MC.tla; do (cd "$tmp" && tla-sany "$(basename "$f")" >/dev/null) || { echo "SANY failed: $f"; exit 1; }; done
+for f in "$tmp"/*_MC.tla "$tmp"/*_Trace.tla "$tmp"/*_Conc.tla; do [ -f "$f" ] || continue; (cd "$tmp" && tla-sany "$(basename "$f")" >/dev/null) || { echo "SANY failed: $f"; exit 1; }; done
 rm -rf "$tmp"
 echo setup ok
